@@ -5,12 +5,12 @@
 cd /verif || exit 2
 TIER=quick; SEEDS="1"; WALL=""; PROP=""; EXTRA=""
 while [ $# -gt 0 ]; do case "$1" in --tier) TIER=$2; shift 2;; --seeds) SEEDS=$2; shift 2;; --wall) WALL="--wall $2"; shift 2;; --prop) PROP=$2; shift 2;; --fast) EXTRA="--min-budget 30s --max-classes 2"; shift;; *) break;; esac; done
-IDS="$@"; [ -z "$IDS" ] && IDS=$(ls seeded | grep -E '^(C1[01]|M1[01]|E1[01])-')
+IDS="$@"; [ -z "$IDS" ] && IDS=$(ls seeded | grep -E '^(C1[01]|M1[01]|E1[01]|X1[01])-')
 if [ -n "$(git -C /repo status --porcelain)" ]; then echo "seeded.sh: /repo is not clean, refusing"; exit 2; fi
 # the checks rewrite evidence/<id>.json on every run: keep the files that were
 # written on the unchanged tree and put them back when done
 EVBAK=$(mktemp -d /var/tmp/verif-evidence-XXXXXX); cp evidence/*.json $EVBAK/ 2>/dev/null
-trap 'git -C /repo checkout -q -- . 2>/dev/null; cp $EVBAK/*.json /verif/evidence/ 2>/dev/null; rm -rf $EVBAK' EXIT
+trap 'git -C /repo checkout -q -- . && git -C /repo clean -fdq 2>/dev/null; cp $EVBAK/*.json /verif/evidence/ 2>/dev/null; rm -rf $EVBAK' EXIT
 mkdir -p seeded/results
 for id in $IDS; do
   prop=$(jq -r .property seeded/$id/meta.json); [ -n "$PROP" ] && prop=$PROP
@@ -22,7 +22,7 @@ for id in $IDS; do
     t0=$(date +%s)
     out=$(VERIF_SEED=$seed ./run $prop --tier $TIER $WALL $EXTRA 2>&1); code=$?
     t1=$(date +%s)
-    git -C /repo checkout -q -- .
+    git -C /repo checkout -q -- . && git -C /repo clean -fdq
     viol=$(echo "$out" | grep -c '^VIOLATION')
     classes=$(echo "$out" | grep -o 'violation [^:]*:[^ ]*[^"]*' | cut -c1-160 | head -3 | tr '\n' ';')
     echo "$id [$prop] seed=$seed exit=$code violations=$viol time=$((t1-t0))s expect=$expect :: $classes"
